@@ -103,6 +103,9 @@ impl Model {
     }
 }
 
+/// Set when a brc20_transact did not return: the rest of this worker's runs are skipped.
+static HUNG: std::sync::atomic::AtomicBool = std::sync::atomic::AtomicBool::new(false);
+
 struct Run<'a> {
     d: Driver,
     model: Model,
@@ -120,7 +123,11 @@ struct Run<'a> {
 
 impl<'a> Run<'a> {
     fn new(ctx: &'a WorkerCtx, net: &str) -> Option<Run<'a>> {
+        if HUNG.load(std::sync::atomic::Ordering::SeqCst) {
+            return None;
+        }
         let mut d = new_driver("C08");
+        d.inst.timeout = std::time::Duration::from_secs(30);
         d.exec(Op::Init { hash: hist::ZERO_HASH.into(), ts: 1, height: 0 });
         let pk = "5120f0f0f0f0f0f0f0f0f0f0f0f0f0f0f0f0f0f0f0f0f0f0f0f0f0f0f0f0f0f0f0".to_string();
         let h = crate::hist::bh((0xc08u64) as u64);
@@ -187,7 +194,11 @@ impl<'a> Run<'a> {
                     Expect::Executed(v) => format!("execute nonces {:?}", v),
                     Expect::Nothing => "return no receipts".into(),
                 };
-                let sig = if other.err_msg().map(|m| m.contains("tx_idx is different")).unwrap_or(false) { "transact-error-after-expired-successor" } else { "transact-error" };
+                if matches!(other, Resp::Timeout) {
+                    // the instance is most likely wedged: every further call would wait for the watchdog
+                    HUNG.store(true, std::sync::atomic::Ordering::SeqCst);
+                }
+                let sig = if matches!(other, Resp::Timeout) { "transact-never-returned" } else if other.err_msg().map(|m| m.contains("tx_idx is different")).unwrap_or(false) { "transact-error-after-expired-successor" } else { "transact-error" };
                 self.fail(rep, sig, format!("brc20_transact of a well-formed transaction answered {} where the pool model expects it to {}", other.short(), exp), json!({"nonce": nonce, "variant": variant}));
                 return false;
             }
